@@ -64,7 +64,7 @@ def shapes(tier):
             out.append({'mode': 'agg', 'k': k, 'seq_avg': sa})
         out.append({'mode': 'med', 'k': k})
     out.append({'mode': 'agg', 'k': 1, 'seq_avg': True, 'mismatch': True})
-    heavy = lambda s: s.get('li', 0) + s.get('lp', 0) + s.get('lt', 0)
+    heavy = lambda s: 100 if s['mode'] == 'f1' else s.get('li', 0) + s.get('lp', 0) + s.get('lt', 0)
     out.sort(key=lambda s: -heavy(s))
     return out
 
@@ -101,8 +101,9 @@ def run(ctx, shape, opts):
     if md == 'f1':
         ctx.use_cvc5 = True   # IEEE-754 mul/div queries: cvc5 decides them in seconds, z3 does not
         if ctx.concrete is None:
+            m.cvc5_timeout_ms = 240000
             if opts.get('tier') == 'thorough':
-                m.cvc5_timeout_ms = 400000
+                m.cvc5_timeout_ms = 600000
                 beta = ctx.in_fp('beta')
             else:
                 # quick tier: every f32 value widened to f64 (full f64 needs minutes per query, see thorough)
@@ -110,7 +111,8 @@ def run(ctx, shape, opts):
                 beta = FP(z3.fpFPToFP(z3.RNE(), b32.v, z3.Float64()), 'f64')
                 ctx.inputs['beta'] = beta
             # case split over binades of beta (six sub-ranges of (0, 8]): an order of magnitude faster than one query
-            rngs = [(0.0, 0.125), (0.125, 0.5), (0.5, 1.0), (1.0, 2.0), (2.0, 4.0), (4.0, 8.0)]
+            rngs = [(0.0, 2.0 ** -20), (2.0 ** -20, 2.0 ** -8), (2.0 ** -8, 0.0625), (0.0625, 0.25), (0.25, 0.5), (0.5, 0.75), (0.75, 1.0),
+                    (1.0, 1.5), (1.5, 2.0), (2.0, 3.0), (3.0, 4.0), (4.0, 6.0), (6.0, 8.0)]
             lo, hi = rngs[ctx.choice(len(rngs), 'beta-range')]
             ctx.assume(m.conj([m.fp_binop('Gt', beta, FP(lo, 'f64')), m.fp_binop('Le', beta, FP(hi, 'f64'))]))
         else:
